@@ -2,6 +2,20 @@ package main
 
 import "strings"
 
+// arityDocs: arrays with exactly as many / more / fewer elements than a fixed-size Go array
+// destination holds ([2]int, [0]int, struct fields of those types), closed properly and with
+// a trailing or doubled comma: the decoder switches from "decode element i" to "skip the
+// rest" at the destination's length.
+func arityDocs() []string {
+	var l []string
+	for _, body := range []string{"", "1", "1,2", "1,2,3", "1,2,3,4"} {
+		for _, tail := range []string{"]", ",]", ", ]", ",,]", ",", ",}", ",]x", ",3", ",null]", ",[]]", ",[,]]"} {
+			l = append(l, "["+body+tail, `{"a":[`+body+tail+`,"b":[]}`, `{"a":[`+body+tail+`}`)
+		}
+	}
+	return l
+}
+
 // volumeDocs: documents with MANY invalid UTF-8 bytes inside string literals. Under
 // ValidateString the decoder repairs such input through utf8.CorrectWith, which records the
 // positions of invalid bytes in a table of 4096 entries and works in rounds when the table
